@@ -20,7 +20,9 @@ RULE = (
     "(d) ALL interleavings of the per-mineral update sequences of 2 minerals (6) and 3 minerals (90), "
     "2 updates each, against sequential execution: bit-identical per mineral, including minerals "
     "that were handed the SAME initial array objects; (e) two minerals built and driven identically "
-    "are bit-identical after every update. Non-trivial: phi_own not in {0.5, 1}, texture changed; "
+    "are bit-identical after every update, both as a deep copy and as two constructor calls with "
+    "identical arguments over seed(6 incl. 0, int64(0), none) x given/default orientations x "
+    "given/default fractions x n_grains(2) x fabric(6), all 6 schedules of 2+2 updates. Non-trivial: phi_own not in {0.5, 1}, texture changed; "
     "distinct = reached state / schedule."
 )
 ASSUMPTIONS = [
@@ -66,7 +68,78 @@ def gen_cases(tier, seed):
     for fi in range(len(FRACS)):
         for nm in (2, 3):
             keys.append(dict(part="params_inplace", frac=fi, nmin=nm, flows=fi % 4))
+    # clause (e) through the constructor: every combination of constructor arguments, two
+    # minerals built from the SAME arguments (seed C08d: seed 0 treated as "no seed")
+    for fab in alph.FABRICS:
+        for sd in BUILD_SEEDS:
+            for oi in (0, 1):
+                for fi in (0, 1):
+                    for ng in (2, 5):
+                        keys.append(dict(part="built", fab=fab, seed=sd, ori=oi, fri=fi, ng=ng, flows=(ng + oi + fi) % 4))
     return keys
+
+
+BUILD_SEEDS = ["0", "int64:0", "1", "8816", "4294967295", "none"]
+
+
+def run_built(key):
+    """Two (and three) minerals constructed from identical arguments, driven identically, all
+    schedules of 2 updates each: bitwise equal after construction and after every update."""
+    res = empty_result()
+    pd = H.pd()
+    ph, fb = alph.FABRICS[key["fab"]]
+    n = key["ng"]
+    sd = {"none": None, "int64:0": np.int64(0)}[key["seed"]] if key["seed"] in ("none", "int64:0") else int(key["seed"])
+    if sd is None and not key["ori"]:
+        # an unseeded random initial texture is not "built identically": only the shape is defined
+        res["n"] = 1
+        m = pd.Mineral(phase=ph, fabric=fb, regime=4, n_grains=n)
+        res["clauses"]["unseeded_shape"] = 1
+        if np.asarray(m.orientations[0]).shape != (n, 3, 3):
+            H.V(res, key, "unseeded_shape", {"shape": list(np.asarray(m.orientations[0]).shape)})
+        res["obs"] = digest(key)
+        res["sample"] = {"case": key}
+        return res
+
+    def build():
+        kw = dict(phase=ph, fabric=fb, regime=4, n_grains=n, seed=sd)
+        if key["ori"]:
+            kw["orientations_init"] = alph.texture("random", n)
+        if key["fri"]:
+            kw["fractions_init"] = alph.volumes("geometric", n)
+        return pd.Mineral(**kw)
+
+    prm = H.params_for(ph, "default")
+    fls = [H.flow(x) for x in FLOW_PAIRS[key["flows"]]]
+    cl = res["clauses"]
+    for sched in interleavings([2, 2]):
+        ms = [build(), build()]
+        cl["built_identical_initial"] = cl.get("built_identical_initial", 0) + 1
+        if not (np.array_equal(ms[0].orientations[0], ms[1].orientations[0]) and np.array_equal(ms[0].fractions[0], ms[1].fractions[0])):
+            H.V(res, key, "built_identical_initial", {"dev": float(np.abs(np.asarray(ms[0].orientations[0]) - np.asarray(ms[1].orientations[0])).max())})
+            break
+        cl["seed_attribute_kept"] = cl.get("seed_attribute_kept", 0) + 1
+        if not (ms[0].seed == ms[1].seed):
+            res["notes"]["seed_attribute_differs"] = res["notes"].get("seed_attribute_differs", 0) + 1
+        Fs = [H.f0("generic"), H.f0("generic")]
+        done = [0, 0]
+        for i in sched:
+            k = done[i]
+            res["n"] += 1
+            res["trans"] += 1
+            Fs[i] = H.update(ms[i], prm, Fs[i], fls[k], 0.3 * k, 0.3 * k + 0.3)
+            done[i] += 1
+        res["states"] += 1
+        cl["built_identical_driven"] = cl.get("built_identical_driven", 0) + 1
+        a = digest(np.array(ms[0].orientations), np.array(ms[0].fractions), Fs[0])
+        b = digest(np.array(ms[1].orientations), np.array(ms[1].fractions), Fs[1])
+        if a != b:
+            H.V(res, key, "built_identical_driven", {"dev": float(np.abs(ms[0].orientations[-1] - ms[1].orientations[-1]).max())}, sched="".join(map(str, sched)))
+        res["nontrivial"].append(digest(key, sched))
+        res["outcomes"].append(a)
+    res["obs"] = digest(*res["outcomes"])
+    res["sample"] = {"case": key}
+    return res
 
 
 def assemblage(key, ph):
@@ -78,7 +151,7 @@ def assemblage(key, ph):
 
 
 def run_case(key):
-    return {"single": run_twin, "perm": run_twin, "bulk": run_bulk, "interleave": run_interleave, "params_inplace": run_params_inplace}[key["part"]](key)
+    return {"single": run_twin, "perm": run_twin, "bulk": run_bulk, "interleave": run_interleave, "params_inplace": run_params_inplace, "built": run_built}[key["part"]](key)
 
 
 def run_params_inplace(key):
